@@ -98,6 +98,7 @@ def queued_flag_discipline(r, ctx):
         ok, wit = pop.must_pass([some], clears | rep, targets=set(head) | set(pop.exits()))
         r.check(ok and bool(clears), "pop/%s/queued-cleared-or-requeued" % kind, g.loc(), "every path of the %s arm clears `queued` or re-queues the lane" % kind,
                 "a path of the %s arm leaves queued == true with no queue entry: the lane is never written again (%s)" % (kind, wit))
+    queue_entries_and_flags(r, ctx)
 
 
 def no_data_no_event(r, ctx):
@@ -140,37 +141,124 @@ def special_preempts(r, ctx):
     none = [pop.variant_edges(si["block"]).get("None") for si in sws if pop.variant_edges(si["block"])]
     r.check(bool(none) and all(pop.dominates(n, wq[0].block) for n in none), "pop/data-only-if-no-special", wq[0].loc(), "data is popped only on the None edge of special_queue.pop_front()",
             "data may be popped although a special action is queued")
-    rm = [c for c in ps.calls if c.name == "remove" and "_uplinks" in describe_operand(ps, c.args[0])]
     pb = [c for c in ps.calls if c.name == "push_back" and describe_operand(ps, c.args[0]).endswith(".special_queue")]
     if len(pb) != 1:
         raise AnchorMissing("push_special: special_queue.push_back")
-    fields = sorted(describe_operand(ps, c.args[0]).split(".")[-1] for c in rm)
-    r.check(fields == sorted(MAPFIELD.values()), "push_special/unlinked-discards-all-kinds", where(ps), "a queued Unlinked removes the lane from %s" % fields,
-            "a queued Unlinked removes the lane only from %s: pending data of the lane can follow its unlinked" % fields)
-    for c in rm:
-        g = dom_guards(ps, c.block)
-        r.check(any(d == "disc(action)" and l == "Unlinked" for d, l, _ in g) and "lane_id" in describe_operand(ps, c.args[1]), "push_special/remove-guard/" + describe_operand(ps, c.args[0]).split(".")[-1], c.loc(),
-                "removal only for Unlinked, by its lane_id")
-        r.check(ps.reaches(c.block, {pb[0].block}), "push_special/remove-before-queue/" + describe_operand(ps, c.args[0]).split(".")[-1], c.loc(), "removal precedes queuing the special action")
+    eff = lane_entry_effects(ctx, ps)
+    for kind in KINDS:
+        fld = MAPFIELD[kind]
+        e = eff[fld]
+        reset = e["fields"].get("send_synced") == "False" and _fresh(e["fields"].get("backpressure"))
+        how = "removed" if e["removed"] else ("reset in place (%s)" % sorted(e["fields"].items())) if reset else None
+        r.check(how is not None, "push_special/unlinked-discards/" + fld, where(ps), "a queued Unlinked discards the lane's pending %s state: %s" % (kind.lower(), how),
+                "a queued Unlinked leaves the lane's pending %s state (%s): data or a synced marker of the closed link can follow its unlinked" % (kind.lower(), sorted(e["fields"].items()) or "untouched"))
+        for c in e["sites"]:
+            g = dom_guards(ps, c.block)
+            r.check(any(d == "disc(action)" and l == "Unlinked" for d, l, _ in g) and "lane_id" in describe_operand(ps, c.args[1]), "push_special/discard-guard/" + fld, c.loc(),
+                    "discarded only for Unlinked, by its lane_id")
+            r.check(ps.reaches(c.block, {pb[0].block}), "push_special/discard-before-queue/" + fld, c.loc(), "the discard precedes queuing the special action")
+
+
+def _fresh(d):
+    return d is not None and (d in ("default()", "take()") or d.startswith("new(") or d.startswith("default(") or d.endswith("::default()") or d == "cleared")
+
+
+def lane_entry_effects(ctx, body):
+    """What `body` does to the per-lane entry of each uplink map: {"value_uplinks": {"removed": bool, "fields": {field: value}, "sites": [calls]}, ..}.
+    An entry is reached through `map.get_mut(lane)`; its fields are set directly or by a crate-local helper that sets them on every path."""
+    prog = ctx.program("swimos_runtime")
+    out = {}
+    for fld in MAPFIELD.values():
+        e = {"removed": False, "fields": {}, "sites": []}
+        for c in body.calls:
+            if not c.args:
+                continue
+            a0 = describe_operand(body, c.args[0])
+            if c.name in ("remove", "remove_entry") and a0.endswith("." + fld):
+                e["removed"] = True
+                e["sites"].append(c)
+            elif c.name == "get_mut" and a0.endswith("." + fld):
+                e["sites"].append(c)
+            elif a0.startswith("get_mut(self." + fld) or (".%s" % fld) in a0 and a0.startswith("get_mut("):
+                # a method applied to the entry
+                tail = a0.split(")")[-1]
+                if c.name == "clear" and tail.endswith(".backpressure"):
+                    e["fields"]["backpressure"] = "cleared"
+                for hb in prog.callee_bodies(c):
+                    if "remotes::uplink" not in hb.defpath:
+                        continue
+                    ctx.saw(hb)
+                    for i, j, p, rv, line in hb.assigns():
+                        dp = describe_place(hb, p)
+                        if dp.startswith("self.") and dp.count(".") == 1 and hb.must_pass([0], {i})[0]:
+                            e["fields"][dp[len("self."):]] = describe_rvalue(hb, rv)
+        for i, j, p, rv, line in body.assigns():
+            dp = describe_place(body, p)
+            if dp.startswith("get_mut(") and ("." + fld) in dp.split(")")[0] + ")" and "<Some>" in dp:
+                if not dp.split(".")[-1].isdigit():
+                    e["fields"][dp.split(".")[-1]] = describe_rvalue(body, rv)
+        out[fld] = e
+    return out
+
+
+def queue_entries_and_flags(r, ctx):
+    """C01.R5b: `queued` says "this lane has an entry in write_queue". Entries leave the queue at the pop in replace_and_pop (checked by
+    queued_flag_discipline); any other operation that can take entries out (retain, clear, remove, drain, truncate, ..) must, on the same path, clear
+    `queued` on - or remove - the uplinks whose entries it may have dropped. Otherwise a lane is left flagged as queued with no entry: nothing is
+    ever enqueued for it again and its latest value is never written."""
+    rt = ctx.crate("swimos_runtime")
+    n = 0
+    for b in rt.all_bodies():
+        if "remotes::uplink::" not in b.defpath or "::tests" in b.defpath:
+            continue
+        shr = [c for c in b.calls if c.name in ("retain", "retain_mut", "clear", "remove", "drain", "truncate", "pop_back", "split_off", "swap_remove_back", "swap_remove_front")
+               and c.args and describe_operand(b, c.args[0]).endswith(".write_queue")]
+        if not shr:
+            continue
+        ctx.saw(b)
+        eff = lane_entry_effects(ctx, b)
+        home = b.meta.get("name") or b.defpath.split("::")[-1]
+        for c in shr:
+            for kind in KINDS:
+                fld = MAPFIELD[kind]
+                e = eff[fld]
+                n += 1
+                r.check(e["removed"] or e["fields"].get("queued") == "False", "%s/write_queue.%s/%s-flag-cleared" % (home, c.name, fld), c.loc(),
+                        "entries taken out of write_queue by %s: the %s uplink is removed or its `queued` flag cleared" % (c.name, kind.lower()),
+                        "%s takes entries out of write_queue with %s but the %s uplink of that lane keeps queued == true (fields touched: %s): no entry is ever enqueued for the lane again and its latest value is never written" % (
+                            home, c.name, kind.lower(), sorted(e["fields"].items()) or "none"))
+    if n == 0:
+        _, pop, _ = fns(ctx)
+        r.ok("write_queue/entries-leave-only-at-the-pop", where(pop), "no function of Uplinks takes entries out of write_queue except the pop in replace_and_pop")
 
 
 def uplink_state_lifetime(r, ctx):
-    """C14.R3c: the per-lane uplink entries (pending supply items, value, map queue) are dropped when an Unlinked is *accepted*, never when
-    a queued special action is popped: by then the remote may have linked again and the entry holds items owed to the new link."""
+    """C14.R3c: the per-lane uplink entries (pending supply items, value, map queue) are dropped - removed from their map or reset in place - when an
+    Unlinked is *accepted*, never when a queued special action is popped: by then the remote may have linked again and the entry holds items owed to
+    the new link."""
     rt = ctx.crate("swimos_runtime")
     push, pop, ps = fns(ctx)
     n = 0
     for b in rt.all_bodies():
         if "remotes::uplink::" not in b.defpath or "::tests" in b.defpath:
             continue
+        eff = lane_entry_effects(ctx, b)
+        home = (b.meta.get("name") or b.defpath.split("::")[-1])
+        for fld, e in sorted(eff.items()):
+            how = "remove" if e["removed"] else "reset" if "backpressure" in e["fields"] and _fresh(e["fields"]["backpressure"]) else None
+            if how is None:
+                continue
+            n += 1
+            ctx.saw(b)
+            site = e["sites"][0].loc() if e["sites"] else where(b)
+            r.check(b is ps, "%s/%s.%s/only-when-unlinked-is-accepted" % (home, fld, how), site, "%s is dropped in push_special, in the order the unlink was requested" % fld,
+                    "%s drops %s entries: when a queued Unlinked is finally written the remote may have linked again, and the items supplied to the new link (which are in that entry) are lost" % (home, fld))
         for c in b.calls:
-            if c.name in ("remove", "clear", "retain", "drain", "remove_entry") and c.args and "_uplinks" in describe_operand(b, c.args[0]):
+            if c.name in ("clear", "retain", "drain") and c.args and "_uplinks" in describe_operand(b, c.args[0]):
                 n += 1
                 ctx.saw(b)
                 fld = describe_operand(b, c.args[0]).split(".")[-1]
-                home = (b.meta.get("name") or b.defpath.split("::")[-1])
-                r.check(b is ps, "%s/%s.%s/only-when-unlinked-is-accepted" % (home, fld, c.name), c.loc(), "%s is dropped in push_special, in the order the unlink was requested" % fld,
-                        "%s drops %s entries: when a queued Unlinked is finally written the remote may have linked again, and the items supplied to the new link (which are in that entry) are lost" % (home, fld))
+                r.check(b is ps, "%s/%s.%s/only-when-unlinked-is-accepted" % (home, fld, c.name), c.loc(), "%s is dropped in push_special" % fld, "%s drops %s entries in bulk" % (home, fld))
     r.check(n >= 3, "uplinks-state/removal-sites", where(ps), "%d sites drop per-lane uplink state" % n)
 
 
